@@ -99,17 +99,10 @@ impl<C: Config, Q: Query> Snapshot<C, Q> {
         caller_information: &CallerInformation,
         lock_guard: ComputingLockGuard<C>,
     ) -> Option<(ComputingLockGuard<C>, Self)> {
-        // if the caller is backward projection propagation, we always
-        // recompute since the projection query have already told us
-        // that the value is required to be recomputed.
-        if matches!(
-            caller_information.kind(),
-            CallerKind::BackwardProjectionPropagation
-        ) {
-            return Some((lock_guard, self));
-        }
-
-        // continue normal path ...
+        // a projection invoked by backward projection propagation is verified
+        // like any other projection: all of its callees are checked (see
+        // `check_callee`) and it is recomputed only if one of them differs
+        // from what it observed; it may already have seen the new value.
         let recompute = self
             .recompute_decision_based_on_forward_edges(
                 caller_information,
@@ -409,6 +402,19 @@ impl<C: Config, Q: Query> Snapshot<C, Q> {
         }
     }
 
+    /// Whether the callees must be checked eagerly (even through edges that
+    /// are not marked dirty). Backward projection propagation runs while the
+    /// firewalls above the changed one may not have been repaired yet, so it
+    /// is always pedantic (as its executor invocation is, see
+    /// `execute_query`).
+    fn pedantic_repair_of(caller_information: &CallerInformation) -> bool {
+        match caller_information.kind() {
+            CallerKind::Query(query_caller) => query_caller.pedantic_repair(),
+            CallerKind::BackwardProjectionPropagation => true,
+            _ => false,
+        }
+    }
+
     #[allow(clippy::too_many_lines)]
     async fn recompute_decision_based_on_forward_edges(
         &mut self,
@@ -438,9 +444,7 @@ impl<C: Config, Q: Query> Snapshot<C, Q> {
                         caller_information.timestamp(),
                         caller_information.active_computation_guard(),
                         computing_lock_guard.query_computing(),
-                        caller_information.get_query_caller().is_some_and(
-                            super::caller::QueryCaller::pedantic_repair,
-                        ),
+                        Self::pedantic_repair_of(caller_information),
                     )
                     .await;
 
@@ -494,9 +498,7 @@ impl<C: Config, Q: Query> Snapshot<C, Q> {
                         let computing_lock_guard =
                             computing_lock_guard.query_computing().clone();
                         let pedantic_repair =
-                            caller_information.get_query_caller().is_some_and(
-                                super::caller::QueryCaller::pedantic_repair,
-                            );
+                            Self::pedantic_repair_of(caller_information);
 
                         chunk_handles.spawn(async move {
                             Self::check_callee_chunked(
